@@ -201,6 +201,8 @@ def collapse_items(items: ExpandedItems, is_linetable: bool) -> CollapsedItems:
         # For the bytecode split, the previouse line offset should be zero
         bytecode_offset_split = (
             (item if is_linetable else prev_item).line_offset == 0
+            # A section without a line number is never continued by one with a line
+            and prev_item.line_offset is not None
             and prev_item.bytecode_offset >= (254 if is_linetable else 255)
             and item.bytecode_offset != 0
         )
